@@ -171,7 +171,30 @@ func ruleWalkBackKeepsLower(c *eng.Ctx) {
 				if !ok {
 					continue
 				}
-				prioOf := func(e ast.Expr) (types.Object, bool) {
+				var prioOf func(e ast.Expr) (types.Object, bool)
+				prioOf = func(e ast.Expr) (types.Object, bool) {
+					// a local that holds a priority: hp := b.Delta.GetPriority()
+					if o := eng.ObjOf(info, e); o != nil {
+						var def ast.Expr
+						cnt := 0
+						ast.Inspect(fi.Decl.Body, func(y ast.Node) bool {
+							if as, ok := y.(*ast.AssignStmt); ok && len(as.Lhs) == len(as.Rhs) {
+								for i, l := range as.Lhs {
+									if eng.ObjOf(info, l) == o {
+										cnt++
+										def = as.Rhs[i]
+									}
+								}
+							}
+							return true
+						})
+						if cnt == 1 && def != nil {
+							if _, isCall := ast.Unparen(def).(*ast.CallExpr); isCall {
+								return prioOf(def)
+							}
+						}
+						return nil, false
+					}
 					call, ok := ast.Unparen(e).(*ast.CallExpr)
 					if !ok {
 						return nil, false
@@ -261,7 +284,39 @@ func ruleQueueOnce(c *eng.Ctx) {
 		return
 	}
 	// membership guard: `_, ok := M[k]` (or `if _, ok := M[k]; ok`) on a map keyed by cid.Cid, not the merge target's heads
-	isCidSetTest := func(info *types.Info, n ast.Node) bool {
+	var isCidSetTest func(info *types.Info, n ast.Node) bool
+	isCidSetTest = func(info *types.Info, n ast.Node) bool {
+		// a call of a package function whose body performs the test (mp.alreadyMerged(cid))
+		if e, ok := n.(ast.Expr); ok || n != nil {
+			_ = e
+			helper := false
+			ast.Inspect(n, func(x ast.Node) bool {
+				call, ok := x.(*ast.CallExpr)
+				if !ok || helper {
+					return !helper
+				}
+				if h := c.P.FuncOfObj(eng.Callee(info, call)); h != nil && h.Pkg == apply.Pkg && h != apply && h != walk && h.Decl.Body != nil {
+					if sig, ok := h.Obj.Type().(*types.Signature); ok && sig.Results().Len() == 1 {
+						if b, ok := sig.Results().At(0).Type().Underlying().(*types.Basic); ok && b.Kind() == types.Bool {
+							ast.Inspect(h.Decl.Body, func(y ast.Node) bool {
+								if as, ok := y.(*ast.AssignStmt); ok && len(as.Lhs) == 2 && len(as.Rhs) == 1 {
+									if ix, ok := ast.Unparen(as.Rhs[0]).(*ast.IndexExpr); ok {
+										if mt, ok := h.Pkg.TypesInfo.TypeOf(ix.X).Underlying().(*types.Map); ok && strings.HasSuffix(eng.TypeName(mt.Key()), "go-cid.Cid") && !isFieldNamed(h.Pkg.TypesInfo, ix.X, "heads") {
+											helper = true
+										}
+									}
+								}
+								return true
+							})
+						}
+					}
+				}
+				return true
+			})
+			if helper {
+				return true
+			}
+		}
 		as, ok := n.(*ast.AssignStmt)
 		if !ok || len(as.Lhs) != 2 || len(as.Rhs) != 1 {
 			return false
